@@ -34,9 +34,9 @@ MUTANTS = {
 TIERS = {
     # NKEEP: one in n of the splits that leave a leaf to the defaults; ALLPERMS: all enumeration orders
     # for environments up to this size, PERMS random ones above; repeat: loads per case
-    "quick": {"gen": {"VERIF_GEN_MAXENV": 4, "VERIF_GEN_NKEEP": 5, "VERIF_GEN_ALLPERMS": 2, "VERIF_GEN_PERMS": 1},
+    "quick": {"gen": {"VERIF_GEN_MAXENV": 4, "VERIF_GEN_NKEEP": 6, "VERIF_GEN_ALLPERMS": 2, "VERIF_GEN_PERMS": 1},
               "shards": 8, "repeat": 1, "leaves": False, "judges": 4},
-    "thorough": {"gen": {"VERIF_GEN_MAXENV": 4, "VERIF_GEN_NKEEP": 1, "VERIF_GEN_ALLPERMS": 3, "VERIF_GEN_PERMS": 6},
+    "thorough": {"gen": {"VERIF_GEN_MAXENV": 4, "VERIF_GEN_NKEEP": 1, "VERIF_GEN_ALLPERMS": 3, "VERIF_GEN_PERMS": 2},
                  "shards": 12, "repeat": 1, "leaves": True, "judges": 6},
 }
 
@@ -273,7 +273,7 @@ def all_known(known, c, reasons):
     return entries if all(entries) else None
 
 
-def classify(work, binary, verdict, known, lines, bad, sample=120, limit=1500):
+def classify(work, binary, verdict, known, lines, bad, sample=120, limit=400):
     """Known findings vs. violations. A rejected case is a known finding iff every reason it was rejected for
     matches an entry. Everything else is re-executed in isolation (3 times) before it is called a violation;
     of the known ones a sample is re-executed as well (once) to show they are reproducible."""
@@ -298,6 +298,7 @@ def classify(work, binary, verdict, known, lines, bad, sample=120, limit=1500):
         conf = reproduce(work, binary, lines, unknown_ids[:limit], reasons, times=3)
         stats["reproduced"] = len(conf)
         stats["not_reproduced"] = len(unknown_ids[:limit]) - len(conf)
+        groups = {}
         for c, rs in conf:
             entries = all_known(known, c, rs)
             if entries:     # the reasons seen over the re-executions are all known after all
@@ -306,8 +307,15 @@ def classify(work, binary, verdict, known, lines, bad, sample=120, limit=1500):
                 stats["known_finding_cases"] += 1
                 continue
             unknown = [r for r in rs if not match_known(known, facts_of(c, r))]
-            path = (save_replay(PROP, case_key(c)[:12], [c]) if len(verdict.violations) < 20 else "(not saved)")
-            verdict.violation(path, ",".join(unknown) + " " + json.dumps(facts_of(c, unknown[0])))
+            sig = json.dumps(facts_of(c, unknown[0]), sort_keys=True)
+            groups.setdefault(sig, []).append(c)
+        # one VIOLATION line (and replay file with up to 5 cases) per distinct class of trigger fields;
+        # usability classes first
+        for sig in sorted(groups, key=lambda g: ('"ev": "usable"' not in g, -len(groups[g]))):
+            cs = groups[sig]
+            path = (save_replay(PROP, case_key(cs[0])[:12], cs[:5]) if len(verdict.violations) < 20 else "(not saved)")
+            verdict.violation(path, "%s (%d cases)" % (sig, len(cs)))
+        stats["violating_cases"] = sum(len(g) for g in groups.values())
     return stats
 
 
